@@ -226,6 +226,16 @@ fn main() {
         args.extend(extra.iter().cloned());
         pipe_jobs.push(("flow", args, None));
     }}}}
+    // words as variable values (branch, hash, custom): a value the first pass normalises in any way (a ref namespace stripped, a
+    // keyword turned into "unset") is normalised again - differently - when the emitted object is read back
+    for w in keyword_texts() {
+        for p in ["standard-context", "standard-base-prerelease-post-dev-context"] {
+            pipe_jobs.push(("version", a(&["--source", "none", "--tag-version", "1.2.3", "--distance", "2", "--bumped-branch", w, "--schema", p]), None));
+            pipe_jobs.push(("flow", a(&["--source", "none", "--tag-version", "1.2.3", "--distance", "2", "--bumped-branch", w, "--schema", p]), None));
+        }
+        pipe_jobs.push(("version", a(&["--source", "none", "--tag-version", "1.2.3", "--distance", "1", "--bumped-commit-hash", w, "--custom", &json!({"k": w}).to_string(), "--schema", "standard-context"]), None));
+        pipe_jobs.push(("version", a(&["--source", "stdin", "--bumped-branch", w, "--schema", "standard-context"]), Some(stdin_doc.clone())));
+    }
     // schemas with literal components (only --schema-ron or a stdin document can carry them) x index-addressed overrides and
     // bumps that rewrite a literal - the schema changes, the variables do not - alone and together with a variable operation
     let lit_start = pipe_jobs.len();
